@@ -55,7 +55,7 @@ fp8_ops!(c09_fp8_ops, FP8);
 //@ harness: c09_fp8b_ops
 //@ prop: C09
 //@ tier: quick
-//@ cost: 22
+//@ cost: 8
 //@ funcs: fp::ops::FieldOps::{add,sub,neg,modp,montgomery,residue}, FieldMulOpsSingleWord::mul (W=u8, p=251: carries at the word boundary)
 //@ bounds: every operand pair < p; every word for montgomery/modp
 //@ asserts: = arithmetic mod p (spec with %), results fully reduced
@@ -101,7 +101,7 @@ macro_rules! fp8_pow_inv {
 //@ harness: c09_fp8_pow_inv
 //@ prop: C09
 //@ tier: quick
-//@ cost: 15
+//@ cost: 10
 //@ funcs: fp::ops::FieldOps::{pow,inv} (W=u8, p=17)
 //@ bounds: every base < p, every exponent < 2^8
 //@ asserts: pow = square-and-multiply reference on integers; x * inv(x) = 1 for x != 0
@@ -110,7 +110,7 @@ fp8_pow_inv!(c09_fp8_pow_inv, FP8, 255);
 //@ harness: c09_fp8b_pow_inv
 //@ prop: C09
 //@ tier: quick
-//@ cost: 31
+//@ cost: 20
 //@ funcs: fp::ops::FieldOps::{pow,inv} (W=u8, p=251)
 //@ bounds: every base < p, every exponent <= 15 (the full 8-bit exponent range is in the thorough twin)
 //@ asserts: pow = square-and-multiply reference on integers; x * inv(x) = 1 for x != 0 (inv uses the full exponent p-2)
@@ -143,7 +143,7 @@ const fn neg_inv_pow2_16(p: u16) -> u16 {
 //@ harness: c09_fp16_ops
 //@ prop: C09
 //@ tier: quick
-//@ cost: 9
+//@ cost: 8
 //@ funcs: fp::ops::FieldOps::{add,sub,neg}, FieldMulOpsSingleWord::mul (W=u16, DoubleWord=u32, p=61441)
 //@ bounds: every operand pair < p
 //@ asserts: add/sub/neg = integer spec; mul = reference REDC (t + (t*mu mod R)*p)/R with final subtraction, mu recomputed from p
@@ -205,7 +205,7 @@ fp_addsub_single!(c09_fp32_addsub, FP32, u32, u64);
 //@ harness: c09_fp64_addsub
 //@ prop: C09
 //@ tier: quick
-//@ cost: 8
+//@ cost: 4
 //@ funcs: FP64::{add,sub,neg,modp}, FP64::mul (range only)
 //@ bounds: every operand pair < p (full 64-bit width)
 //@ asserts: add/sub/neg/modp = integer spec; mul result < p
@@ -214,7 +214,7 @@ fp_addsub_single!(c09_fp64_addsub, FP64, u64, u128);
 //@ harness: c09_fp128_addsub
 //@ prop: C09
 //@ tier: quick
-//@ cost: 26
+//@ cost: 18
 //@ funcs: FP128::{add,sub,neg,modp}, FieldMulOpsSplitWord::mul (range only)
 //@ bounds: every operand pair < p (full 128-bit width)
 //@ asserts: add/sub/neg/modp = integer spec (carry-aware); mul result < p
@@ -311,7 +311,7 @@ accept_set!(c09_accept_prio2, c09_accept_codec_prio2, FieldPrio2, u32, 4, 429391
 //@ harness: c09_accept_f64
 //@ prop: C09,C07,C08
 //@ tier: quick
-//@ cost: 3
+//@ cost: 2
 //@ funcs: Field64::{try_from, try_from_random, try_from_bytes}
 //@ bounds: every 8-byte string; the 7-byte prefix
 //@ asserts: accepted iff LE(bytes) < p; short input refused; no panic
@@ -327,14 +327,14 @@ accept_set!(c09_accept_f64, c09_accept_codec_f64, Field64, u64, 8, 1844674406941
 //@ harness: c09_accept_f128
 //@ prop: C09,C07,C08
 //@ tier: quick
-//@ cost: 16
+//@ cost: 4
 //@ funcs: Field128::{try_from, try_from_random, try_from_bytes}
 //@ bounds: every 16-byte string; the 15-byte prefix
 //@ asserts: accepted iff LE(bytes) < p; short input refused; no panic
 //@ harness: c09_accept_codec_f128
 //@ prop: C09,C07,C08
 //@ tier: quick
-//@ cost: 6
+//@ cost: 3
 //@ funcs: <Field128 as Decode>::decode
 //@ bounds: every 16-byte string
 //@ asserts: Ok iff LE(bytes) < p; cursor advanced by exactly 16
@@ -343,7 +343,7 @@ accept_set!(c09_accept_f128, c09_accept_codec_f128, Field128, u128, 16, 34028236
 //@ harness: c09_accept_f255
 //@ prop: C09,C07,C08
 //@ tier: quick
-//@ cost: 330
+//@ cost: 130
 //@ funcs: Field255::{try_from, try_from_random, try_from_bytes} (constant-time comparison with the modulus)
 //@ bounds: every 32-byte string
 //@ asserts: accepted iff LE(bytes) < 2^255 - 19 (top bit cleared first for try_from_random)
@@ -387,7 +387,7 @@ pub fn c09_accept_f255() {
 //@ harness: c09_field8_glue
 //@ prop: C09,C07
 //@ tier: quick
-//@ cost: 216
+//@ cost: 45
 //@ funcs: make_field! expansion at Field8: From<int>, Into<int>, try_from bytes, encode/decode, Eq/ct_eq, conditional_select/negate, Add/Sub/Mul/Div/Neg, pow, inv, one/zero/half, root
 //@ bounds: field GF(17); every pair of elements, every byte, every integer
 //@ asserts: operators = arithmetic mod 17; conversions canonical and mutually inverse; Eq <=> same integer; select/negate as named
@@ -452,7 +452,7 @@ pub fn c09_field8_glue() {
 //@ harness: c09_field16_glue
 //@ prop: C09,C07
 //@ tier: quick
-//@ cost: 56
+//@ cost: 49
 //@ funcs: make_field! expansion at Field16 (2-byte encoding): try_from bytes, Into<[u8;2]>, encode/decode, From<int>, Eq
 //@ bounds: field GF(61441); every 2-byte string and every u16 integer
 //@ asserts: decode accepts iff LE < p; accepted strings re-encode to themselves; From<int> reduces mod p (division-free spec)
@@ -510,7 +510,7 @@ macro_rules! field_consistency {
 //@ harness: c09_consistency_prio2
 //@ prop: C09
 //@ tier: quick
-//@ cost: 5
+//@ cost: 4
 //@ funcs: FieldPrio2: conditional_select, conditional_negate, Eq, ct_eq, Neg, Add, Sub
 //@ bounds: every pair of elements (built from arbitrary u32 integers)
 //@ asserts: select/negate as named; Eq = ct_eq; -0 = 0; --x = x; x-x = 0; (x+y)-y = x
@@ -519,7 +519,7 @@ field_consistency!(c09_consistency_prio2, FieldPrio2, u32, 4);
 //@ harness: c09_consistency_f64
 //@ prop: C09
 //@ tier: quick
-//@ cost: 14
+//@ cost: 3
 //@ funcs: Field64: conditional_select, conditional_negate, Eq, ct_eq, Neg, Add, Sub
 //@ bounds: every pair of elements (built from arbitrary u64 integers)
 //@ asserts: select/negate as named; Eq = ct_eq; -0 = 0; --x = x; x-x = 0; (x+y)-y = x
@@ -528,7 +528,7 @@ field_consistency!(c09_consistency_f64, Field64, u64, 8);
 //@ harness: c09_consistency_f128
 //@ prop: C09
 //@ tier: quick
-//@ cost: 17
+//@ cost: 13
 //@ funcs: Field128: conditional_select, conditional_negate, Eq, ct_eq, Neg, Add, Sub
 //@ bounds: every pair of elements (built from arbitrary u128 integers)
 //@ asserts: select/negate as named; Eq = ct_eq; -0 = 0; --x = x; x-x = 0; (x+y)-y = x
@@ -537,7 +537,7 @@ field_consistency!(c09_consistency_f128, Field128, u128, 16);
 //@ harness: c09_roots_field8
 //@ prop: C09,C10
 //@ tier: quick
-//@ cost: 2
+//@ cost: 3
 //@ funcs: NttFriendlyFieldElement::{root, generator, generator_order} (make_field! expansion at GF(17))
 //@ bounds: every l in 0..=21
 //@ asserts: root(l) has order exactly 2^l for l <= NUM_ROOTS, None beyond; generator has order generator_order
